@@ -180,4 +180,240 @@ theorem erase_eq (hs : Sorted cmp (xs ++ (a, av) :: ys)) :
 end pivot
 
 end Spec.OrdMap
+
+namespace Tree
+open Colour
+variable {cmp : Nat → Nat → Int}
+
+@[simp] theorem toList_nil : toList nil = [] := rfl
+@[simp] theorem toList_node (c l k v r) : toList (node c l k v r) = toList l ++ (k, v) :: toList r := rfl
+@[simp] theorem toList_blacken (t : Tree) : t.blacken.toList = t.toList := by cases t <;> rfl
+
+/-! ### rotations and recolourings keep the in-order list -/
+theorem toList_fixInsLeft (t : Tree) : (fixInsLeft t).toList = t.toList := by
+  unfold fixInsLeft
+  repeat' split
+  all_goals simp
+
+theorem toList_fixInsRight (t : Tree) : (fixInsRight t).toList = t.toList := by
+  unfold fixInsRight
+  repeat' split
+  all_goals simp
+
+theorem toList_fixDelLeftB (t : Tree) : (fixDelLeftB t).1.toList = t.toList := by
+  unfold fixDelLeftB
+  repeat' split
+  all_goals simp
+theorem toList_fixDelRightB (t : Tree) : (fixDelRightB t).1.toList = t.toList := by
+  unfold fixDelRightB
+  repeat' split
+  all_goals simp
+theorem toList_fixDelLeft (t : Tree) : (fixDelLeft t).1.toList = t.toList := by
+  unfold fixDelLeft
+  split
+  · simp [toList_fixDelLeftB]
+  · exact toList_fixDelLeftB _
+theorem toList_fixDelRight (t : Tree) : (fixDelRight t).1.toList = t.toList := by
+  unfold fixDelRight
+  split
+  · simp [toList_fixDelRightB]
+  · exact toList_fixDelRightB _
+
+/-! ### refinement of the tree functions to the list functions -/
+theorem head?_append_ne {α} {xs ys : List α} (h : xs ≠ []) : (xs ++ ys).head? = xs.head? := by
+  cases xs <;> simp_all
+theorem getLast?_append_ne {α} {xs ys : List α} (h : ys ≠ []) : (xs ++ ys).getLast? = ys.getLast? := by
+  rw [List.getLast?_append]
+  cases h' : ys.getLast? with
+  | none => simp [List.getLast?_eq_none_iff] at h'; contradiction
+  | some a => simp
+theorem getLast?_cons_ne {α} {e : α} {ys : List α} (h : ys ≠ []) : (e :: ys).getLast? = ys.getLast? := by
+  cases ys with
+  | nil => contradiction
+  | cons a b => exact List.getLast?_cons_cons
+theorem toList_node_ne_nil (c l k v r) : toList (node c l k v r) ≠ [] := by simp
+
+theorem size_eq_length (t : Tree) : t.size = t.toList.length := by
+  induction t with
+  | nil => rfl
+  | node c l k v r ihl ihr => simp [size, ihl, ihr]; omega
+
+theorem BST.left {c l k v r} (h : BST cmp (node c l k v r)) : BST cmp l := (sorted_append_cons.1 h).1
+theorem BST.right {c l k v r} (h : BST cmp (node c l k v r)) : BST cmp r := (sorted_append_cons.1 h).2.1
+
+/-- insertion refines the ideal add-or-replace -/
+theorem toList_ins (h : TotalOrder cmp) (k v : Nat) (t : Tree) (hb : BST cmp t) :
+    (ins cmp k v t).1.toList = insert cmp t.toList k v := by
+  induction t with
+  | nil => simp [ins, OrdMap.insert, below, above]
+  | node c l key val r ihl ihr =>
+    have hs : Sorted cmp (l.toList ++ (key, val) :: r.toList) := hb
+    unfold ins
+    split
+    · rename_i hlt
+      have e : (if (ins cmp k v l).2.1 then fixInsLeft (node c (ins cmp k v l).1 key val r)
+          else node c (ins cmp k v l).1 key val r).toList = (ins cmp k v l).1.toList ++ (key, val) :: r.toList := by
+        split <;> simp [toList_fixInsLeft]
+      simp only [e, ihl hb.left, toList_node]
+      exact (insert_lt h hs hlt v).symm
+    · split
+      · rename_i _ hgt
+        have hgt' := (h.gt_iff k key).1 hgt
+        have e : (if (ins cmp k v r).2.1 then fixInsRight (node c l key val (ins cmp k v r).1)
+            else node c l key val (ins cmp k v r).1).toList = l.toList ++ (key, val) :: (ins cmp k v r).1.toList := by
+          split <;> simp [toList_fixInsRight]
+        simp only [e, ihr hb.right, toList_node]
+        exact (insert_gt h hs hgt' v).symm
+      · rename_i h1 h2
+        have := h.eq_of_not h1 h2
+        subst this
+        simp only [toList_node]
+        exact (insert_eq h hs v).symm
+
+/-- a node is created exactly when the key is absent -/
+theorem ins_new (h : TotalOrder cmp) (k v : Nat) (t : Tree) (hb : BST cmp t) :
+    (ins cmp k v t).2.1 = !contains t.toList k := by
+  induction t with
+  | nil => simp [ins, contains]
+  | node c l key val r ihl ihr =>
+    have hs : Sorted cmp (l.toList ++ (key, val) :: r.toList) := hb
+    unfold ins
+    split
+    · rename_i hlt
+      simp only [ihl hb.left, toList_node, contains_append]
+      rw [contains_false_of_ne (ne_of_side h (Or.inr (right_above_of_lt h hs hlt)))]; simp
+    · split
+      · rename_i _ hgt
+        have hgt' := (h.gt_iff k key).1 hgt
+        have e : l.toList ++ (key, val) :: r.toList = (l.toList ++ [(key, val)]) ++ r.toList := by simp
+        simp only [ihr hb.right, toList_node]
+        rw [e, contains_append, contains_false_of_ne (ne_of_side h (Or.inl (left_below_of_gt h hs hgt')))]; simp
+      · rename_i h1 h2
+        have := h.eq_of_not h1 h2
+        subst this
+        simp [contains]
+
+/-- lookup refines the ideal lookup -/
+theorem find_refines (h : TotalOrder cmp) (k : Nat) (t : Tree) (hb : BST cmp t) :
+    (find cmp k t).1 = lookup t.toList k := by
+  induction t with
+  | nil => simp [find, lookup]
+  | node c l key val r ihl ihr =>
+    have hs : Sorted cmp (l.toList ++ (key, val) :: r.toList) := hb
+    unfold find
+    split
+    · rename_i hlt
+      simp only [ihl hb.left, toList_node]; exact (lookup_lt h hs hlt).symm
+    · split
+      · rename_i _ hgt
+        simp only [ihr hb.right, toList_node]; exact (lookup_gt h hs ((h.gt_iff k key).1 hgt)).symm
+      · rename_i h1 h2
+        have := h.eq_of_not h1 h2
+        subst this
+        simp only [toList_node]; exact (lookup_eq h hs).symm
+
+theorem minEntry_eq (t : Tree) : t.minEntry = t.toList.head? := by
+  induction t with
+  | nil => rfl
+  | node c l k v r ihl _ =>
+    cases l with
+    | nil => simp [minEntry]
+    | node lc ll lk lv lr =>
+      simp only [minEntry]
+      rw [ihl, toList_node c, head?_append_ne (toList_node_ne_nil _ _ _ _ _)]
+
+theorem maxEntry_eq (t : Tree) : t.maxEntry = t.toList.getLast? := by
+  induction t with
+  | nil => rfl
+  | node c l k v r _ ihr =>
+    cases r with
+    | nil => simp [maxEntry]
+    | node rc rl rk rv rr =>
+      simp only [maxEntry]
+      rw [ihr, toList_node c, getLast?_append_ne (by simp), getLast?_cons_ne (toList_node_ne_nil _ _ _ _ _)]
+
+theorem toList_dropNode (c : Colour) (x : Tree) : (dropNode c x).1.toList = x.toList := by
+  unfold dropNode; repeat' split
+  all_goals simp
+
+theorem toList_delMin (t : Tree) : (delMin t).1.toList = t.toList.tail := by
+  induction t with
+  | nil => rfl
+  | node c l k v r ihl _ =>
+    cases l with
+    | nil => simp [delMin, toList_dropNode]
+    | node lc ll lk lv lr =>
+      simp only [delMin]
+      split
+      · rw [toList_fixDelLeft, toList_node, ihl, toList_node c, List.tail_append_of_ne_nil (toList_node_ne_nil _ _ _ _ _)]
+      · rw [toList_node, ihl, toList_node c, List.tail_append_of_ne_nil (toList_node_ne_nil _ _ _ _ _)]
+
+theorem toList_delMax (t : Tree) : (delMax t).1.toList = t.toList.dropLast := by
+  induction t with
+  | nil => rfl
+  | node c l k v r _ ihr =>
+    cases r with
+    | nil => simp [delMax, toList_dropNode]
+    | node rc rl rk rv rr =>
+      simp only [delMax]
+      split
+      · rw [toList_fixDelRight, toList_node, ihr, toList_node c, List.dropLast_append_of_ne_nil (by simp),
+          List.dropLast_cons_of_ne_nil (toList_node_ne_nil _ _ _ _ _)]
+      · rw [toList_node, ihr, toList_node c, List.dropLast_append_of_ne_nil (by simp),
+          List.dropLast_cons_of_ne_nil (toList_node_ne_nil _ _ _ _ _)]
+
+theorem toList_removeHere (c l k v r) : (removeHere (node c l k v r)).1.toList = l.toList ++ r.toList := by
+  cases l with
+  | nil => simp [removeHere, toList_dropNode]
+  | node lc ll lk lv lr =>
+    cases r with
+    | nil => simp [removeHere, toList_dropNode]
+    | node rc rl rk rv rr =>
+      have hm := minEntry_eq (node rc rl rk rv rr)
+      have ht := toList_delMin (node rc rl rk rv rr)
+      have hne := toList_node_ne_nil rc rl rk rv rr
+      simp only [removeHere]
+      generalize node rc rl rk rv rr = R at hm ht hne
+      cases hmin : minEntry R with
+      | none =>
+        rw [hmin] at hm
+        have : R.toList = [] := by simpa using hm.symm
+        contradiction
+      | some m =>
+        rw [hmin] at hm
+        obtain ⟨ys, hys⟩ := List.head?_eq_some_iff.1 hm.symm
+        have h2 : (delMin R).1.toList = ys := by rw [ht, hys]; rfl
+        simp only []
+        split
+        · rw [toList_fixDelRight, toList_node, h2, hys]
+        · rw [toList_node, h2, hys]
+
+/-- deletion refines the ideal erase -/
+theorem toList_del (h : TotalOrder cmp) (k : Nat) (t : Tree) (hb : BST cmp t) :
+    (del cmp k t).1.toList = erase t.toList k := by
+  induction t with
+  | nil => simp [del, erase]
+  | node c l key val r ihl ihr =>
+    have hs : Sorted cmp (l.toList ++ (key, val) :: r.toList) := hb
+    unfold del
+    split
+    · rename_i hlt
+      have e : (if (del cmp k l).2 then fixDelLeft (node c (del cmp k l).1 key val r)
+          else (node c (del cmp k l).1 key val r, false)).1.toList = (del cmp k l).1.toList ++ (key, val) :: r.toList := by
+        split <;> simp [toList_fixDelLeft]
+      simp only [e, ihl hb.left, toList_node]
+      exact (erase_lt h hs hlt).symm
+    · split
+      · rename_i _ hgt
+        have e : (if (del cmp k r).2 then fixDelRight (node c l key val (del cmp k r).1)
+            else (node c l key val (del cmp k r).1, false)).1.toList = l.toList ++ (key, val) :: (del cmp k r).1.toList := by
+          split <;> simp [toList_fixDelRight]
+        simp only [e, ihr hb.right, toList_node]
+        exact (erase_gt h hs ((h.gt_iff k key).1 hgt)).symm
+      · rename_i h1 h2
+        have := h.eq_of_not h1 h2
+        subst this
+        simp only [toList_removeHere, toList_node]
+        exact (erase_eq h hs).symm
+end Tree
 end CC
